@@ -105,7 +105,7 @@ class Model:
                            stderr=subprocess.PIPE, text=True, timeout=3600)
         if p.returncode != 0:
             raise Infra('model driver failed: ' + p.stderr[-2000:])
-        out = p.stdout.split('\n')
+        out = [l.rstrip() for l in p.stdout.split('\n')]
         if out and out[-1] == '':
             out.pop()
         if len(out) != len(lines):
